@@ -61,6 +61,8 @@ inline bool inGlobalDomain(const Circuit &c, double sideMargin) {
   for (int i = 0; i < c.nbCells(); ++i) {
     if (c.cellHeight_[i] > 0) minH = std::min(minH, c.cellHeight_[i]);
     if (!c.cellIsFixed_[i] && c.area(i) > 0) positive = true;
+    // cell areas are handed to the rough legalizer as int: a single cell of 2^31 units of area or more is outside every domain here
+    if (!c.cellIsFixed_[i] && c.area(i) >= (1LL << 30)) return false;
   }
   if (!positive || minH == std::numeric_limits<int>::max()) return false;
   long long margin = (long long)(sideMargin * minH);
@@ -81,6 +83,24 @@ inline void translateCircuit(Circuit &c, int tx, int ty) {
     r.maxX += tx;
     r.minY += ty;
     r.maxY += ty;
+  }
+}
+
+// Magnifies the whole circuit (rows, cells, sizes, pin offsets) by the integer factor f.
+inline void magnifyCircuit(Circuit &c, int f) {
+  for (int i = 0; i < c.nbCells(); ++i) {
+    c.cellX_[i] *= f;
+    c.cellY_[i] *= f;
+    c.cellWidth_[i] *= f;
+    c.cellHeight_[i] *= f;
+  }
+  for (int &v : c.pinXOffsets_) v *= f;
+  for (int &v : c.pinYOffsets_) v *= f;
+  for (Row &r : c.rows_) {
+    r.minX *= f;
+    r.maxX *= f;
+    r.minY *= f;
+    r.maxY *= f;
   }
 }
 
